@@ -5,4 +5,6 @@ MCUrls == {"rtsp://h1/a", "rtsp://h2/b/"}
 MCUserNames == <<"bob", "eve">>
 MCPaths == <<"/s/one", "/s/two">>
 MCPageSizes == {1, 2, 5}
+MCUrls1 == {"rtsp://h1/a"}
+MCPageSizes2 == {1, 5}
 =============================================================================
